@@ -14,6 +14,12 @@ package filestore
 //   of the segment, so sweeping m over 1..L-2 flips / truncates at every byte position);
 //   a region of N=1 = one segment [0,L) with flip position fp (swept);
 //   model delta d in 1..3 = XOR with c03Mask[d] at the segment's flip position.
+//
+// Handed-out blocks (spec variable `handed`, invariant RetainedGenuine): every block a Get returned is KEPT
+// by the harness and re-examined (bytes re-hashed / compared with the original region, CID) after every later
+// Get and fault -- sequential Gets of other references, Gets through the other APIs, concurrent Gets (record
+// mode), and, in record mode, Gets of later runs (other FileManager instances).  Projection of a kept block =
+// (run, reference, "its bytes hash to the CID of the reference NOW"); it must be a member of the spec's set.
 
 import (
 	"bytes"
@@ -37,6 +43,7 @@ import (
 	dshelp "github.com/ipfs/boxo/datastore/dshelp"
 	posinfo "github.com/ipfs/boxo/filestore/posinfo"
 	dag "github.com/ipfs/boxo/ipld/merkledag"
+	blocks "github.com/ipfs/go-block-format"
 	cid "github.com/ipfs/go-cid"
 	ds "github.com/ipfs/go-datastore"
 	dssync "github.com/ipfs/go-datastore/sync"
@@ -75,7 +82,46 @@ type c03Step struct {
 	Base string     `json:"base"`
 	Cont []int      `json:"cont"`
 	Exp  [][]c03Res `json:"exp"`
+	Held []c03Held  `json:"held"` // spec: blocks handed out so far, as their holders see them now
 }
+
+// c03Held is the projection of a handed-out block.
+type c03Held struct {
+	Run     int  `json:"run,omitempty"`
+	R       int  `json:"r"`
+	Genuine bool `json:"genuine"`
+}
+
+// c03Kept is a block the harness was handed and still holds.
+type c03Kept struct {
+	run, r, step int // r is 0-based
+	api          string
+	b            blocks.Block
+	c            cid.Cid
+	orig         []byte
+	origOK       *int8 // cached: do the ORIGINAL bytes hash to c (0 unknown, 1 yes, -1 no)
+}
+
+// genuine: do the bytes the block carries NOW hash to the CID it was requested by (and does it still carry it)?
+func (k *c03Kept) genuine() bool {
+	if !k.b.Cid().Equals(k.c) {
+		return false
+	}
+	data := k.b.RawData()
+	if bytes.Equal(data, k.orig) { // same bytes as the original region: the hash verdict is that of the original
+		if *k.origOK == 0 {
+			*k.origOK = -1
+			if c03HashOK(k.c, k.orig) {
+				*k.origOK = 1
+			}
+		}
+		return *k.origOK == 1
+	}
+	return c03HashOK(k.c, data)
+}
+
+func (k *c03Kept) held() c03Held { return c03Held{Run: k.run, R: k.r + 1, Genuine: k.genuine()} }
+
 type c03Beh struct {
 	Cfg   c03Cfg    `json:"cfg"`
 	Steps []c03Step `json:"steps"`
@@ -101,6 +147,7 @@ type c03World struct {
 	other []byte   // the foreign container
 	cids  []cid.Cid
 	orig  [][]byte // original region bytes
+	okc   []int8   // per reference: cached hash verdict of the original bytes
 
 	// kind vbs
 	d  ds.Batching
@@ -230,6 +277,7 @@ func c03NewWorld(cfg c03Cfg, dm c03Dims, srv *c03Servers) (*c03World, error) {
 	for r := 0; r < cfg.R; r++ {
 		w.orig = append(w.orig, append([]byte{}, w.own[off+r*L:off+(r+1)*L]...))
 	}
+	w.okc = make([]int8, cfg.R)
 	switch cfg.Kind {
 	case "vbs":
 		c, err := c03Prefix(cfg.Rd).Sum(w.orig[0])
@@ -382,6 +430,7 @@ type c03Obs struct {
 	hashok bool // res ok => returned bytes hash to the CID (independent hash)
 	same   bool // res ok => returned bytes are the original region
 	detail string
+	kept   []c03Kept // the blocks this read handed out (one per API that answered ok)
 }
 
 // get reads reference r (0-based) through every read API and merges the observations.
@@ -404,7 +453,9 @@ func (w *c03World) get(r int, allAPIs bool) c03Obs {
 		if err != nil {
 			return check("vbs.Get", nil, c, err)
 		}
-		return check("vbs.Get", b.RawData(), b.Cid(), nil)
+		o := check("vbs.Get", b.RawData(), b.Cid(), nil)
+		o.kept = append(o.kept, w.keep(r, "vbs.Get", b))
+		return o
 	}
 	b, err := w.fm.Get(ctx, c)
 	var o c03Obs
@@ -412,6 +463,7 @@ func (w *c03World) get(r int, allAPIs bool) c03Obs {
 		o = check("fm.Get", nil, c, err)
 	} else {
 		o = check("fm.Get", b.RawData(), b.Cid(), nil)
+		o.kept = append(o.kept, w.keep(r, "FileManager.Get", b))
 	}
 	if !allAPIs {
 		return o
@@ -422,6 +474,7 @@ func (w *c03World) get(r int, allAPIs bool) c03Obs {
 		o2 = check("fs.Get", nil, c, err2)
 	} else {
 		o2 = check("fs.Get", b2.RawData(), b2.Cid(), nil)
+		o.kept = append(o.kept, w.keep(r, "Filestore.Get", b2))
 	}
 	if w.cfg.Kind == "url" && o.res.Res == "err" && o2.res.Res == "err" && o.res.Class == "corrupt" && o2.res.Class == "corrupt" {
 		// transport level statuses may legitimately differ between two requests; keep the first
@@ -438,6 +491,29 @@ func (w *c03World) get(r int, allAPIs bool) c03Obs {
 		o.detail += fmt.Sprintf(" Verify.Status=%s differs from Get=%v", vs, o.res)
 	}
 	return o
+}
+
+func (w *c03World) keep(r int, api string, b blocks.Block) c03Kept {
+	return c03Kept{r: r, api: api, b: b, c: w.cids[r], orig: w.orig[r], origOK: &w.okc[r]}
+}
+
+// c03Recheck re-examines every kept block; each projection must be in the spec's set of handed-out blocks.
+func c03Recheck(kept []c03Kept, held []c03Held) string {
+	for i := range kept {
+		h := kept[i].held()
+		found := false
+		for _, e := range held {
+			if e == h {
+				found = true
+				break
+			}
+		}
+		if !found {
+			return fmt.Sprintf("RetainedGenuine: the block returned for ref %d by %s after step %d is now %+v, spec holds %+v",
+				kept[i].r+1, kept[i].api, kept[i].step, h, held)
+		}
+	}
+	return ""
 }
 
 // judge compares an observation with the set of results the spec allows.
@@ -698,13 +774,28 @@ func c03Replay(t *testing.T) {
 			}
 			worlds++
 			all := worlds%4 == 0 || (level >= 3 && b.Cfg.Kind == "file" && worlds%2 == 0)
+			var kept []c03Kept
 			for k, st := range b.Steps {
 				if err := w.materialize(st.St, st.Base, st.Cont); err != nil {
 					t.Fatalf("behaviour %d step %d: materialize: %v", i, k, err)
 				}
+				// the fault must not reach blocks handed out earlier ...
+				d0 := c03Recheck(kept, st.Held)
 				for r := range w.cids {
 					gets++
-					if d := c03Judge(w.get(r, all), st.Exp[r]); d != "" {
+					o := w.get(r, all)
+					d := c03Judge(o, st.Exp[r])
+					for _, kb := range o.kept {
+						kb.step = k
+						kept = append(kept, kb)
+					}
+					if d == "" {
+						d = d0
+					}
+					if d == "" { // ... nor may this read (of the same or another reference, through any API)
+						d = c03Recheck(kept, st.Held)
+					}
+					if d != "" {
 						res = M{"i": i, "ok": false, "step": k,
 							"what": fmt.Sprintf("after %s(%d,%d) ref %d [%v]: %s", st.Op, st.A, st.B, r+1, dm, d)}
 						w.close()
@@ -742,6 +833,35 @@ func c03Record(t *testing.T) {
 	defer srv.close()
 	kinds := []string{"vbs", "file", "file", "url"}
 	flav := []string{"v0", "v1", "s512", "b2b", "t20", "id"}
+	// blocks handed out so far, kept across runs (bounded: random eviction, the holder dropping a block)
+	var kept []c03Kept
+	keep := func(run int, o c03Obs) {
+		for _, kb := range o.kept {
+			kb.run = run + 1
+			if len(kept) < 48 {
+				kept = append(kept, kb)
+			} else {
+				kept[rng.Intn(len(kept))] = kb
+			}
+		}
+	}
+	recheck := func() {
+		seen := map[c03Held]bool{}
+		var list []c03Held
+		for i := range kept {
+			if h := kept[i].held(); !seen[h] {
+				seen[h] = true
+				list = append(list, c03Held{Run: h.Run, R: h.R, Genuine: h.Genuine})
+			}
+		}
+		if len(list) > 0 {
+			vEmit(M{"ev": "Recheck", "blocks": list})
+		}
+	}
+	emitGet := func(r int, o c03Obs) {
+		vEmit(M{"ev": "Get", "r": r + 1, "res": o.res.Res, "class": o.res.Class, "status": o.res.Status,
+			"hashok": o.hashok, "same": o.same, "detail": strings.TrimSpace(o.detail)})
+	}
 	for run := 0; run < runs; run++ {
 		cfg := c03Cfg{Kind: kinds[rng.Intn(len(kinds))], N: []int{1, 3, 3, 3}[rng.Intn(4)]}
 		switch cfg.Kind {
@@ -770,13 +890,38 @@ func c03Record(t *testing.T) {
 		}
 		total := len(w.segs) - c03MaxExtra
 		st, base, cont := "present", "own", make([]int, total)
-		vEmit(M{"ev": "Reset", "cfg": cfg, "dims": dm.String()})
+		vEmit(M{"ev": "Reset", "run": run + 1, "cfg": cfg, "dims": dm.String()})
 		for k := 0; k < length; k++ {
-			if rng.Intn(5) < 2 {
+			switch g := rng.Intn(20); {
+			case g < 6: // one Get
 				r := rng.Intn(cfg.R)
 				o := w.get(r, rng.Intn(3) == 0)
-				vEmit(M{"ev": "Get", "r": r + 1, "res": o.res.Res, "class": o.res.Class, "status": o.res.Status,
-					"hashok": o.hashok, "same": o.same, "detail": strings.TrimSpace(o.detail)})
+				emitGet(r, o)
+				keep(run, o)
+				if rng.Intn(2) == 0 {
+					recheck()
+				}
+				continue
+			case g < 8: // concurrent Gets (no fault in between: any order of the Get events is a linearization)
+				n := 2 + rng.Intn(3)
+				rs, alls, obs := make([]int, n), make([]bool, n), make([]c03Obs, n)
+				for j := range rs {
+					rs[j], alls[j] = rng.Intn(cfg.R), rng.Intn(3) == 0
+				}
+				var wg sync.WaitGroup
+				for j := range rs {
+					wg.Add(1)
+					go func(j int) {
+						defer wg.Done()
+						obs[j] = w.get(rs[j], alls[j])
+					}(j)
+				}
+				wg.Wait()
+				for j := range rs {
+					emitGet(rs[j], obs[j])
+					keep(run, obs[j])
+				}
+				recheck()
 				continue
 			}
 			ev := M{}
@@ -821,7 +966,11 @@ func c03Record(t *testing.T) {
 				t.Fatalf("run %d: materialize: %v", run, err)
 			}
 			vEmit(ev)
+			if rng.Intn(6) == 0 {
+				recheck()
+			}
 		}
+		recheck()
 		w.close()
 	}
 }
